@@ -30,8 +30,57 @@ def _norm(t: str) -> str:
     return " ".join(t.split())
 
 
+def _roles(fn: FuncInfo) -> Dict[str, str]:
+    """Identify the loop's variables by ROLE (not by name) so that a rename does not change the extracted effects:
+    parser = MultipartDecoder(...), event = parser.next_event(), file = file_factory(...), items = the returned list,
+    field_name = <event>.name, data = the accumulator that is decoded at flush, chunk = the stream loop variable."""
+    import re as _re
+
+    roles: Dict[str, str] = {}
+    src_nodes = list(ast.walk(fn.node))
+    for n in src_nodes:
+        if isinstance(n, ast.Assign) and len(n.targets) == 1 and isinstance(n.targets[0], ast.Name):
+            t, v = n.targets[0].id, n.value
+            vs = ast.unparse(v).replace("await ", "")
+            if vs.startswith("MultipartDecoder("):
+                roles.setdefault(t, "parser")
+    inv = {v: k for k, v in roles.items()}
+    for n in src_nodes:
+        if isinstance(n, (ast.Assign, ast.AnnAssign)):
+            tgt = n.targets[0] if isinstance(n, ast.Assign) else n.target
+            if not isinstance(tgt, ast.Name) or n.value is None:
+                continue
+            vs = ast.unparse(n.value).replace("await ", "")
+            if "parser" in inv and vs == f"{inv['parser']}.next_event()":
+                roles.setdefault(tgt.id, "event")
+            elif vs.startswith("file_factory("):
+                roles.setdefault(tgt.id, "file")
+    inv = {v: k for k, v in roles.items()}
+    for n in src_nodes:
+        if isinstance(n, ast.Assign) and isinstance(n.targets[0], ast.Name) and "event" in inv and ast.unparse(n.value) == f"{inv['event']}.name":
+            roles.setdefault(n.targets[0].id, "field_name")
+        if isinstance(n, ast.Return) and isinstance(n.value, ast.Name):
+            roles.setdefault(n.value.id, "items")
+        if isinstance(n, (ast.For, ast.AsyncFor)) and isinstance(n.target, ast.Name) and ast.unparse(n.iter) == "stream":
+            roles.setdefault(n.target.id, "chunk")
+        if isinstance(n, ast.Call) and isinstance(n.func, ast.Name) and n.func.id == "safe_decode" and n.args and isinstance(n.args[0], ast.Name):
+            roles.setdefault(n.args[0].id, "data")
+    return roles
+
+
 def helper_effects(fn: FuncInfo) -> List[Effect]:
+    import re as _re
+
     out: List[Effect] = []
+    roles = _roles(fn)
+    _plain = globals()["_norm"]
+
+    def _norm(t: str) -> str:  # role-normalised text
+        t = _plain(t)
+        for name, role in roles.items():
+            if name != role:
+                t = _re.sub(rf"(?<![\w.]){_re.escape(name)}(?![\w])", role, t)
+        return t
 
     def walk_block(body: List[ast.stmt]) -> None:
         for i, st in enumerate(body):
